@@ -78,6 +78,7 @@ def run(check: Check):
   _keyerror(check)
   _derive(check)
   _intersect(check)
+  _slice_filters(check)
   _preprocessors(check)
   _client_dataset(check)
   _order(check, impls)
@@ -454,6 +455,93 @@ def _derive(check: Check):
           ok = ok and txt(ids) == 'self._client_ids'
       check.ob('R-DERIVE', mth, txt(rv)[:100] if rv is not None else 'return', ok,
                f'the wrapper must apply {name} to its base with the same arguments and keep (or narrow) its own id set', node=rv)
+
+
+def _slice_filters(check: Check):
+  """The id filter of the Python-side slice() implementations, decided per case of (start given?, stop given?): no filter when both
+  are None, `start <= i` / `i < stop` for one bound, their conjunction for two - whatever the branch structure."""
+  from fjsa.rules import cases
+  from fjsa.flow import lt_form
+  repo = check.repo
+  for modname, cname in ((FD, 'SubsetFederatedData'), (IMFD, 'InMemoryFederatedData')):
+    fi = repo.cls(modname, cname).method('slice')
+    ff = FuncFlow.of(repo, fi)
+    ps = fi.positional_params
+    if len(ps) < 3:
+      continue
+    p_start, p_stop = ps[1], ps[2]
+    verdict = True
+    shown = []
+    for has_start in (False, True):
+      for has_stop in (False, True):
+        def decide(t, has_start=has_start, has_stop=has_stop):
+          if isinstance(t, ast.BoolOp):
+            rs = [decide(v) for v in t.values]
+            if isinstance(t.op, ast.And):
+              return False if any(r is False for r in rs) else (None if any(r is None for r in rs) else True)
+            return True if any(r is True for r in rs) else (None if any(r is None for r in rs) else False)
+          if isinstance(t, ast.UnaryOp) and isinstance(t.op, ast.Not):
+            r = decide(t.operand)
+            return None if r is None else not r
+          if isinstance(t, ast.Compare) and len(t.ops) == 1 and isinstance(t.ops[0], (ast.Is, ast.IsNot)) and isinstance(
+              t.comparators[0], ast.Constant) and t.comparators[0].value is None and isinstance(t.left, ast.Name):
+            given = has_start if t.left.id == p_start else (has_stop if t.left.id == p_stop else None)
+            if given is None:
+              return None
+            return (not given) if isinstance(t.ops[0], ast.Is) else given
+          return None
+        env, ret = cases.evaluate(fi.node.body, {}, decide)
+        got = None
+        if env is not cases.UNKNOWN and ret is not None:
+          # the id collection is the argument of the constructor call that is not the base / mapping: find comprehension filters in it
+          comps = [x for x in ast.walk(ret) if isinstance(x, (ast.GeneratorExp, ast.SetComp, ast.ListComp, ast.DictComp))]
+          conds = set()
+          junction = 'and'
+          for cmp_ in comps:
+            for g in cmp_.generators:
+              var = txt(g.target)
+              for cond in g.ifs:
+                parts = cond.values if isinstance(cond, ast.BoolOp) else [cond]
+                if isinstance(cond, ast.BoolOp) and isinstance(cond.op, ast.Or):
+                  junction = 'or'
+                for c_ in parts:
+                  if isinstance(c_, ast.Compare) and len(c_.ops) == 2:     # start <= i < stop
+                    c1 = ast.Compare(left=c_.left, ops=[c_.ops[0]], comparators=[c_.comparators[0]])
+                    c2 = ast.Compare(left=c_.comparators[0], ops=[c_.ops[1]], comparators=[c_.comparators[1]])
+                    sub = [c1, c2]
+                  else:
+                    sub = [c_]
+                  for c2_ in sub:
+                    f = lt_form(c2_)
+                    if f is None:
+                      conds.add(('?', txt(c2_)))
+                    else:
+                      small, strict, big = f
+                      conds.add((txt(small), '<' if strict else '<=', txt(big)))
+          got = (frozenset(conds), junction)
+          want = set()
+          if has_start:
+            want.add((p_start, '<=', None))
+          if has_stop:
+            want.add((None, '<', p_stop))
+          ok = True
+          norm = set()
+          for c_ in conds:
+            if len(c_) == 3 and c_[0] == p_start and c_[1] == '<=':
+              norm.add((p_start, '<=', None))
+            elif len(c_) == 3 and c_[2] == p_stop and c_[1] == '<':
+              norm.add((None, '<', p_stop))
+            else:
+              norm.add(c_)
+          ok = norm == want and (junction == 'and' or len(conds) < 2)
+          shown.append(f'start {"set" if has_start else "None"}, stop {"set" if has_stop else "None"}: {sorted(map(str, conds))} ({junction})')
+          if not ok:
+            verdict = False
+        else:
+          if verdict:
+            verdict = None
+    check.ob('R-SIB.range-py', fi, f'{cname}.slice id filter', verdict,
+             'ids are kept iff start <= id (when start is given) and id < stop (when stop is given): ' + '; '.join(shown)[:400])
 
 
 def view_purity(check: Check, classes, rule: str = 'R-PURE', only=None) -> int:
